@@ -237,7 +237,8 @@ pub fn gen_fault(rng: &mut Rng, st: &Statement, n1: usize, n2: usize) -> Option<
                     d,
                 })
             }
-            3 | 4 if n > 0 => {
+            // gate triples are overwritten through the guarded hook: not drawn in the guard-off build
+            3 | 4 if n > 0 && crate::HOOKS => {
                 // bias to first / last / boundary gates
                 let gate = match below(rng, 4) {
                     0 => 0,
